@@ -483,7 +483,16 @@ impl<'a> G<'a> {
         if self.budget > 0 && self.r.chance(4) {
             // occasionally a long array of leaves: two-digit indices ([1] vs [10]..[13]); in the
             // Boundary profile also lengths around 2^8 (chunked / parallel processing boundaries)
-            let long = if self.cfg.profile == Profile::Boundary && self.r.chance(30) { *self.r.pick(&[255u64, 256, 257, 258, 259]) } else { 11 + self.r.below(4) };
+            let long = if self.cfg.profile == Profile::Boundary && self.r.chance(30) {
+                if self.r.chance(12) {
+                    // more than a thousand elements (hard caps on part counts, u8 / u10 counters)
+                    *self.r.pick(&[1022u64, 1023, 1024, 1025, 1100])
+                } else {
+                    *self.r.pick(&[255u64, 256, 257, 258, 259])
+                }
+            } else {
+                11 + self.r.below(4)
+            };
             for _ in 0..long {
                 let v = self.leaf();
                 out.push(v);
